@@ -315,6 +315,8 @@ def make_input(recipe: dict) -> bytes:
     fam = recipe.get("family", "byte")
     if fam == "byte":
         other = load(recipe["other"]) if recipe.get("other") else b""
+        if op == "jpeg_segment_length" and "enum" in recipe:
+            other = recipe["enum"]          # (the variant number: which picture, which segment, which value)
         return mutate.byte_mutate(data, op, rng, other)
     if fam == "zip":
         return mutate.zip_mutate(data, op, rng)
